@@ -3,7 +3,7 @@
 From Coq Require Import List ZArith NArith Bool Lia.
 From RecordUpdate Require Import RecordSet.
 From PC.Base Require Import Assoc.
-From PC.Sup Require Import Model Monitors Check Tactics Sim ObsFacts Effects RelCore LemC02 RelC02t RelC02b RelC02c RelC02d.
+From PC.Sup Require Import Model Monitors Check Tactics Sim ObsFacts Effects RelCore LemC02 RelC02t RelC02b RelC02c RelC02d RelC02f.
 Import ListNotations RecordSetNotations.
 
 (* the window hypothesis of the full theorem: F20/F21 (commit), F37 (sdlag), F25 (dup), F38 (zombie) *)
@@ -55,7 +55,50 @@ Proof.
     - (* RRunCtx *) destruct (N.eqb_spec i j) as [->|]; rewrite Ex in E2; cbn in E2; injection E2 as <-; [|congruence].
       destruct (rt_pend _ _ HRt th j) as [A _]. rewrite Hgt in A. specialize (A Ep).
       left. unfold sreq in A. now rewrite (oi_get_some _ _ _ Hxo) in A. }
-  destruct HPx. constructor; unfold Pok, GaveUp in *; rewrite ?L1, ?L2, ?L3, ?L4, ?L5, ?L6, ?L7, ?flush_viss_of; auto.
+  assert (Hv : forall n, vis_of (flush th s) n = vis_of s n) by (intros n; unfold vis_of; now rewrite flush_viss).
+  destruct HPx. constructor; unfold Pok, GaveUp in *; rewrite ?L1, ?L2, ?L3, ?L4, ?L5, ?L6, ?L7, ?Hv; auto.
 Qed.
+
+Lemma conf_of_inst s o i x xo : Rc cs s o -> get i (insts s) = Some x -> get i (oi o) = Some xo ->
+  conf_of cs (o_nm xo) = cf x /\ o_launches xo = launches x /\
+  r_restarts (on_get o (o_nm xo)) = restarts (vis_of s (nm x)).
+Proof.
+  intros HRc Ex Exo. destruct (rc_inst _ _ _ HRc _ _ Ex) as (xo2 & Exo2 & Hn & Hcf & Hl).
+  assert (xo2 = xo) by congruence. subst xo2. rewrite Hn. unfold conf_of. rewrite Hcf. repeat split; auto.
+  destruct (rc_name _ _ _ HRc _ _ Hcf) as (v & r & Ev & Er & _ & _ & Hr).
+  now rewrite (on_get_some _ _ _ Er), (vis_of_some _ _ _ Ev).
+Qed.
+
+(* the monitor's checks, in a state related to the observer *)
+Lemma mon_ok s o th e s' : Rc cs s o -> P2all s o -> step_core s th e = Some s' ->
+  mon_C02 cs o (th, e) = true \/ W4 o = true.
+Proof.
+  intros HRc HP H. destruct (W4 o) eqn:EW; [now right|left].
+  pose proof (W4_W2 _ EW) as EW2.
+  unfold mon_C02. cbn [fst snd].
+  destruct e; try (cbn; repeat match goal with |- context[match ?x with _ => _ end] => destruct x end; reflexivity).
+  - (* ELaunch *)
+    destruct ok; [|cbn; destruct (get th (o_th o)); reflexivity].
+    cbn in H. kind_cases H.
+    match goal with E : get th (thinst s) = Some ?i, E0 : get ?i (insts s) = Some ?x |- _ =>
+      destruct (own_th cs _ _ _ _ _ HRc E E0) as (Et & xo & Exo); cbn [ev_inst]; rewrite Et, (oi_get_some _ _ _ Exo);
+      destruct (conf_of_inst _ _ _ _ _ HRc E0 Exo) as (Hcf & Hl & _); rewrite Hcf, Hl;
+      pose proof (HP _ _ _ E0 Exo) as HPx end.
+    destruct HPx as [Pcommit Pstop Pexited Palive Pcode Pdecided Prelaunch Pgaveup Prestarts Ppre Pfstopped Prunctx Pendst Pgone Pnostop Pstatus].
+    match goal with E : pc _ = IStateSet |- _ => rewrite E in * end.
+    destruct (Nat.eqb_spec (launches i2) 0) as [|Hl0]; [reflexivity|].
+    destruct Prelaunch as (c & Hc & (Hpol & Hb) & Hel); [reflexivity|lia|].
+    rewrite Hc, Hpol, Hel. destruct (o_stopreq xo) eqn:Es; [specialize (Pstop EW2 eq_refl); discriminate|].
+    cbn. rewrite andb_true_r. destruct Hb as [->|Hb]; [reflexivity|]. apply Nat.leb_le in Hb. rewrite Hb. apply orb_true_r.
+  - (* ERestartDecision *)
+    destruct b; [|cbn; destruct (get th (o_th o)); reflexivity].
+    cbn in H. kind_cases H.
+    match goal with E : get th (thinst s) = Some ?i, E0 : get ?i (insts s) = Some ?x |- _ =>
+      destruct (own_th cs _ _ _ _ _ HRc E E0) as (Et & xo & Exo); cbn [ev_inst]; rewrite Et, (oi_get_some _ _ _ Exo);
+      pose proof (HP _ _ _ E0 Exo) as HPx end.
+    destruct (o_stopreq xo) eqn:Es; [|reflexivity]. exfalso.
+    match goal with E : pc _ = ICodeWritten _ |- _ => rewrite E in HPx end.
+    match goal with E : Bool.eqb true (restart_ok _ _ _ _ _) = true |- _ => apply Bool.eqb_prop in E; symmetry in E; apply restart_ok_spec in E; destruct E as (Ef & _) end.
+    rewrite (p_nostop _ _ _ _ HPx EW Es) in Ef by (rewrite ?E1; reflexivity). discriminate.
 (*STOP*)
 End R2.
